@@ -4,6 +4,7 @@ mod drv_dddmp;
 mod drv_hashtbl;
 mod drv_mv;
 mod drv_names;
+mod drv_oom;
 mod drv_pick;
 mod drv_num;
 mod ext;
@@ -57,6 +58,12 @@ fn main() {
             "bdd" => drv_pick::count::<BDDFunction>(&args),
             "bcdd" => drv_pick::count::<BCDDFunction>(&args),
             "zbdd" => drv_pick::count::<ZBDDFunction>(&args),
+            k => panic!("harness: unknown kind {k}"),
+        },
+        "oom" => match kind.as_str() {
+            "bdd" => drv_oom::oom::<BDDFunction>(&args),
+            "bcdd" => drv_oom::oom::<BCDDFunction>(&args),
+            "zbdd" => drv_oom::oom::<ZBDDFunction>(&args),
             k => panic!("harness: unknown kind {k}"),
         },
         "names" => match kind.as_str() {
